@@ -185,13 +185,14 @@ class Case:
         self.kind, self.nrep, self.keys, self.ops, self.origin = kind, nrep, list(keys), ops, origin
         self.expect_panic = expect_panic
         self.raw = raw and kind == "disk"
+        self.reuse = False        # the executor recycles the Cmd buffers as soon as an Update call has returned
         self.cid = None
 
     def uses_slots(self):
         return any(slot_of(o[4] if o[0] == "C" else o) for o in self.ops)
 
     def lines(self):
-        out = ["CASE %d %s %d%s" % (self.cid, self.kind, self.nrep, " raw" if self.raw else ""), "K " + " ".join(hx(k) for k in self.keys)]
+        out = ["CASE %d %s %d%s" % (self.cid, self.kind, self.nrep, (" raw" if self.raw else "") + (" reuse" if self.reuse else "")), "K " + " ".join(hx(k) for k in self.keys)]
         for o in self.ops:
             out.append(self._line(o))
         out.append("END")
@@ -221,6 +222,8 @@ class Case:
         cut = any(len(l) > 600 for l in lines)
         ops = [self._op_text(o) for o in self.ops]
         return {"kind": self.kind, "machine": KIND_NAME[self.kind], "replicas": self.nrep, "origin": self.origin,
+                "cmd_buffers": "ONE buffer per replica holds the commands of an Update call; it is overwritten with 0xA5 when the call "
+                               "has returned and reused by the next call" if self.reuse else "a private slice per command, never touched again",
                 "machine_setup": "as returned by NewDiskKVTest + SetTestFS (snapshot abort injection NOT disabled)" if self.raw else "harness default",
                 "ops": ops, "executor_input": [l if len(l) <= 600 else l[:300] + "...[%d chars]" % len(l) for l in lines],
                 "executor_input_cut": cut}
@@ -260,6 +263,8 @@ class Builder:
         self.ctx = [dict() for _ in range(nrep)]   # context slot -> log position captured by the outstanding context
         self.snap = [dict() for _ in range(nrep)]  # image slot -> log position of the image
         self.raw = False
+        self.fork = False         # every replica writes its OWN entries (indexes 1,2,3.. per replica): histories that are not
+                                  # prefixes of one log; pos[r] is then the index of the replica's last entry
         self.ops = []
         self.next_idx = 0
 
@@ -271,6 +276,17 @@ class Builder:
 
     def update(self, r, n=1, kvs=None):
         """apply the next n log entries (extending the log) to replica r in ONE Update call"""
+        if self.fork:
+            ents, idx = [], self.pos[r]
+            for j in range(n):
+                idx += 1
+                k, v = kvs[j] if kvs else (None, None)
+                k = self.rng.choice(self.keys) if k is None else k
+                v = self.rng.choice(self.vals) if v is None else v
+                ents.append((idx, k, v, enc(k, v)))
+            self.pos[r] = idx
+            self.ops.append(("U", r, ents))
+            return
         ents = []
         for j in range(n):
             if self.pos[r] + j < len(self.log):
@@ -436,7 +452,7 @@ def panic_cases(rng, kind):
     return out
 
 
-def random_case(rng, kind, binary, nops, big=(), conc=0.0, nslots=1, raw=False):
+def random_case(rng, kind, binary, nops, big=(), conc=0.0, nslots=1, raw=False, fork=False):
     """big: long strings added to the value (and, the first one, key) alphabet; conc: probability that an operation of a
     ConcurrentKVTest / DiskKVTest replica runs concurrently with lookup goroutines; nslots > 1: that many context / image
     slots per replica (several outstanding contexts, saved and installed in any order); raw: DiskKVTest as NewDiskKVTest
@@ -457,6 +473,9 @@ def random_case(rng, kind, binary, nops, big=(), conc=0.0, nslots=1, raw=False):
     tag = ("bin" if binary else "utf8") + (":big" if big else "") + (":conc" if conc else "") + (":slots" if nslots > 1 else "") + (":raw" if raw else "")
     b = Builder(rng, kind, nrep, keys, vals, "random:%s" % tag)
     b.raw = raw
+    b.fork = fork
+    if fork:
+        b.origin += ":fork"
     names = ["U"] * 8 + ["L"] * 2 + ["S"] * 2 + ["P"] * 3 + ["V"] * 3 + ["R"] * 3 + ["O"] * 2 + ["H"] + ["D"] * 4
     if nslots > 1:
         names += ["P"] * 3 + ["V"] * 2 + ["R"] * 2
@@ -662,6 +681,67 @@ def multi_ctx_cases(rng, kind, quick):
         out.append(b.case())
     for j in range(20 if quick else 600):
         out.append(random_case(rng, kind, binary=(j % 4 == 3), nops=rng.choice([15, 30, 45]), nslots=rng.choice([2, 3])))
+    return out
+
+
+# ------------------------------------------------------------------ replicas with different histories of equal length
+def fork_cases(rng, kind, quick):
+    """the replicas do NOT apply prefixes of one log: each has its own entries (a diverged replica, repaired from a peer's
+    snapshot).  Snapshot hand-over at an EQUAL applied index with different content, hashes read before and after the restore
+    with no update in between: the restored replica must hash and answer like the source, a fresh replica restored from the
+    same image must agree"""
+    out = []
+    keys = [b"a", b"b", b"c", b""]
+    vals = [b"v", b"w", b"", b"\xc3\xa9", b"x"]
+    for n in (1, 2, 5):
+        for shape in ("same-keys", "other-keys", "shorter-batches", "restart-before", "no-hash-before", "twice"):
+            b = Builder(rng, kind, 4, keys, vals, "fork:%s:n=%d" % (shape, n))
+            b.fork = True
+            kv0 = [(keys[i % 3], b"s%d" % i) for i in range(n)]
+            kv1 = [(keys[i % 3] if shape != "other-keys" else b"k%d" % i, b"d%d" % i) for i in range(n)]
+            b.update(0, n, kv0)
+            if shape == "shorter-batches":
+                for kvp in kv1:
+                    b.update(1, 1, [kvp])
+            else:
+                b.update(1, n, kv1)
+            b.op("D", 0)
+            if shape != "no-hash-before":
+                b.op("D", 1); b.op("H", 1)
+            if shape == "restart-before":
+                b.op("O", 1); b.op("D", 1)
+            b.op("P", 0); b.op("V", 0)
+            b.op("R", 1, 0); b.op("H", 1); b.op("D", 1)        # equal index, different content
+            b.op("R", 2, 0); b.op("D", 2)                        # a fresh replica from the same image
+            if shape == "twice":                                  # and back: replica 3 diverged, repairs replica 0..2 in turn
+                b.update(3, n, [(kk, vv + b"!") for (kk, vv) in kv1]); b.op("D", 3); b.op("P", 3); b.op("V", 3)
+                for r in (0, 1, 2):
+                    b.op("R", r, 3); b.op("D", r)
+            b.op("O", 1); b.op("D", 1)
+            for r in (0, 1, 2):
+                b.update(r, 1, [(b"a", b"after")]); b.op("D", r)
+            out.append(b.case())
+    for j in range(30 if quick else 900):
+        out.append(random_case(rng, kind, binary=False, nops=rng.choice([15, 30, 45]), fork=True))
+    return out
+
+
+def reuse_cases(rng, kind, quick):
+    """buffer lifetime: the same scripts, the executor recycling the Cmd buffers after every Update call; strings on both sides of
+    4 KB and of the other size boundaries"""
+    out = big_cases(rng, kind, quick)
+    for binary in (False, True):
+        out += directed(rng, kind, binary)
+    tg = big_targets(quick)
+    for j in range(16 if quick else 400):
+        bigs = []
+        for _ in range(rng.choice([1, 2])):
+            what, n = rng.choice(tg)
+            n = min(n, 1 << 17) + rng.choice([0, -1, 1])
+            bigs.append(big_string(rng, n if what == "val" else vlen_for_record(b"a", n)))
+        out.append(random_case(rng, kind, False, rng.choice([10, 20, 30]), big=bigs if j % 4 else ()))
+    for c in out:
+        c.reuse, c.origin = True, "reuse:" + c.origin
     return out
 
 
@@ -1131,6 +1211,8 @@ def run(ck):
             extra[kind].append(random_case(rng, kind, False, rng.choice([10, 20, 30]), big=bigs))
         concs[kind] += conc_cases(rng, kind, quick)
         extra[kind] += multi_ctx_cases(rng, kind, quick)
+        extra[kind] += fork_cases(rng, kind, quick)
+        extra[kind] += reuse_cases(rng, kind, quick)
     extra["disk"] += raw_cases(rng, quick)
     cid = 0
     for grp in (cases, extra, concs):
@@ -1198,6 +1280,8 @@ def run(ck):
     ck.cov["longest_string_bytes"] = max(len(e[2]) for c in allc for o in c.ops if o[0] == "U" for e in o[2])
     ck.cov["most_records_in_a_snapshot"] = max(sum(len(o[2]) for o in c.ops if o[0] == "U") for c in allc if c.origin.startswith("count"))
     ck.cov["cases_several_outstanding_contexts"] = {k: sum(1 for c in extra[k] if c.uses_slots()) for k in KIND_ID}
+    ck.cov["cases_diverged_histories"] = {k: sum(1 for c in extra[k] if "fork" in c.origin) for k in KIND_ID}
+    ck.cov["cases_cmd_buffers_recycled"] = {k: sum(1 for c in extra[k] if c.reuse) for k in KIND_ID}
     ck.cov["cases_raw_diskkv"] = sum(1 for c in extra["disk"] if c.raw)
     ck.cov["concurrent_restores"] = sum(1 for k in KIND_ID for c in concs[k] for o in c.ops if o[0] == "C" and o[4][0] == "R")
     known = [f for f in fails if f.known is True]
